@@ -281,6 +281,25 @@ func punch(m *openfgav1.AuthorizationModel, kind string, site int) {
 			}
 			cond.Parameters["l"] = &openfgav1.ConditionParamTypeRef{TypeName: openfgav1.ConditionParamTypeRef_TYPE_NAME_LIST}
 		}
+	case "list_param_empty_generics", "map_param_empty_generics":
+		// (the empty, non-nil list is what the DSL listener itself builds for every parameter; protojson reads "[]" as nil)
+		if cond != nil {
+			if cond.Parameters == nil {
+				cond.Parameters = map[string]*openfgav1.ConditionParamTypeRef{}
+			}
+			tn := openfgav1.ConditionParamTypeRef_TYPE_NAME_LIST
+			if kind == "map_param_empty_generics" {
+				tn = openfgav1.ConditionParamTypeRef_TYPE_NAME_MAP
+			}
+			cond.Parameters["e"] = &openfgav1.ConditionParamTypeRef{TypeName: tn, GenericTypes: []*openfgav1.ConditionParamTypeRef{}}
+		}
+	case "generic_type_nil_entry":
+		if cond != nil {
+			if cond.Parameters == nil {
+				cond.Parameters = map[string]*openfgav1.ConditionParamTypeRef{}
+			}
+			cond.Parameters["n"] = &openfgav1.ConditionParamTypeRef{TypeName: openfgav1.ConditionParamTypeRef_TYPE_NAME_LIST, GenericTypes: []*openfgav1.ConditionParamTypeRef{nil}}
+		}
 	case "map_param_without_generic":
 		if cond != nil {
 			if cond.Parameters == nil {
